@@ -467,6 +467,7 @@ func checkC17(w *World, r *Report) {
 	a.checkTopLevel(r)
 	a.checkLoadersExhausted(r)
 	checkNamedFilterApplied(w, r)
+	checkImportsRenderLibrary(w, r, "R17.6")
 }
 
 func uniqStrings(s []string) []string {
